@@ -422,19 +422,33 @@ func (st *dfs) search(g, q []*Statement, cands map[string]map[string]bool, mu ma
 		return nil
 	}
 	sortByCodom(m)
-	mMin := m[0]
 	qp := q[1:]
-	if len(qp) != 0 {
-		for len(m) != 0 {
-			mMin = m[0]
-			mup := st.search(g, qp, cands, mMin)
-			if !isAutomorphism(mup) {
-				return mup
+	if len(qp) == 0 {
+		for _, mMin := range m {
+			if !isAutomorphism(mMin) {
+				return mMin
 			}
-			m = m[1:]
+		}
+		return m[0]
+	}
+	// auto is the first automorphism found. It is
+	// returned if no other endomorphism exists.
+	var auto map[string]string
+	for _, mMin := range m {
+		mup := st.search(g, qp, cands, mMin)
+		if mup == nil {
+			// mMin cannot be extended to the
+			// remaining patterns.
+			continue
+		}
+		if !isAutomorphism(mup) {
+			return mup
+		}
+		if auto == nil {
+			auto = mup
 		}
 	}
-	return mMin
+	return auto
 }
 
 // isAutomorphism returns whether mu is an automorphism, this is equivalent to
